@@ -5,15 +5,27 @@ package collections
 
 // Abstract view of a TTLMap: key -> (value, expiry in epoch seconds), as ghost fields.
 //   vdom[k]  the key is tracked;  vtag/vval[k] the stored interface value;  vexp[k] its expiry second;  vlen = |vdom|
+//
+// The view is owned by the client: the contracts below describe a TTLMap whose calls are serialised by its user (the rate
+// limiter calls it under TokenLimiter.mutex, which is declared to guard the view and checked under C09). The map's own
+// mutex protects the representation (elements, the priority queue, the items); its lock invariant says that the
+// representation is well formed (map entries and queue items are in bijection) and represents the view. OnExpire is nil in
+// every configuration oxy creates; the contracts require it.
+//
+// The priority queue is a thin wrapper over container/heap: its five methods are under assumed contracts over a ghost
+// membership set (qin, qlen) and the items' Priority field; /verif/bounded/C14 checks those contracts on all operation
+// sequences up to a stated bound.
 
 //@ type TTLMap
-//@   immutable capacity mutex OnExpire
-//@   guarded_by mutex: elements expiryTimes
+//@   immutable capacity mutex OnExpire expiryTimes
+//@   guarded_by mutex: elements
+//@   guards mutex: PriorityQueue.qin PriorityQueue.qlen PQItem.Priority PQItem.Value PQItem.index
 //@   ghost vdom map[string]bool
 //@   ghost vtag map[string]int
 //@   ghost vval map[string]int
 //@   ghost vexp map[string]int
 //@   ghost vlen int
+//@   lockinv mutex (m): repOK(m) && coupled(m)
 
 //@ type mapElement
 //@   immutable key heapEl
@@ -22,6 +34,9 @@ package collections
 //@ type PriorityQueue
 //@   extsync
 //@   mutators Push Pop Update Remove
+//@   immutable impl
+//@   ghost qin map[ref]bool
+//@   ghost qlen int
 
 //@ type PQItem
 //@   extsync
@@ -30,36 +45,182 @@ package collections
 //@   extsync
 //@   mutators Swap Push Pop
 
+//@ pred me(it *PQItem) = asref(payload(it.Value), "*mapElement")
+//@ pred repOK(m *TTLMap) = m.elements != nil && m.expiryTimes != nil && m.capacity >= 0 && len(m.elements) == m.expiryTimes.qlen
+//@   && (forall k string :: in(k, m.elements) ==> m.elements[k] != nil && allocated(m.elements[k]) && m.elements[k].key == k && m.elements[k].heapEl != nil && allocated(m.elements[k].heapEl) && m.expiryTimes.qin[m.elements[k].heapEl] && me(m.elements[k].heapEl) == m.elements[k])
+//@   && (forall it *PQItem :: m.expiryTimes.qin[it] ==> it != nil && tagof(it.Value) == typeid("*mapElement") && me(it) != nil && in(me(it).key, m.elements) && m.elements[me(it).key] == me(it) && me(it).heapEl == it)
+//@ pred coupled(m *TTLMap) = m.vlen == len(m.elements) && (forall k string :: m.vdom[k] == in(k, m.elements) && (in(k, m.elements) ==> m.vexp[k] == m.elements[k].heapEl.Priority && m.vtag[k] == tagof(m.elements[k].value) && m.vval[k] == payload(m.elements[k].value)))
+//@ pred viewIsAbstraction(m *TTLMap) = m.vlen == len(m.elements) && (forall k string :: m.vdom[k] == in(k, m.elements) && m.vexp[k] == ite(in(k, m.elements), m.elements[k].heapEl.Priority, old(m.vexp[k])) && m.vtag[k] == ite(in(k, m.elements), tagof(m.elements[k].value), old(m.vtag[k])) && m.vval[k] == ite(in(k, m.elements), payload(m.elements[k].value), old(m.vval[k])))
+//@ pred nowsec() = lastclock / 1000000000
+//@ pred live(m *TTLMap, k string) = m.vdom[k] && m.vexp[k] > lastclock / 1000000000
+//@ pred viewSame(m *TTLMap, k string) = m.vdom[k] == old(m.vdom[k]) && m.vtag[k] == old(m.vtag[k]) && m.vval[k] == old(m.vval[k]) && m.vexp[k] == old(m.vexp[k])
+//@ pred entrySame(m *TTLMap, k string) = in(k, m.elements) == old(in(k, m.elements)) && m.elements[k] == old(m.elements[k]) && (in(k, m.elements) ==> m.elements[k].value == old(m.elements[k].value) && m.elements[k].heapEl.Priority == old(m.elements[k].heapEl.Priority))
+
+// ---- priority queue (assumed: container/heap) ----
+
+//@ func NewPriorityQueue
+//@   props C14
+//@   trusted
+//@   nopanic
+//@   ensures fresh(result) && result != nil && result.qlen == 0 && (forall it *PQItem :: !result.qin[it])
+
+//@ func (*PriorityQueue).Push
+//@   props C14
+//@   trusted
+//@   nopanic
+//@   requires p != nil && el != nil && !p.qin[el]
+//@   modifies p.qin[el], p.qlen, PQItem.index
+//@   ensures p.qin[el] && p.qlen == old(p.qlen) + 1
+
+//@ func (*PriorityQueue).Pop
+//@   props C14
+//@   trusted
+//@   nopanic
+//@   requires p != nil && p.qlen > 0
+//@   modifies p.qin, p.qlen, PQItem.index
+//@   ensures result != nil && old(p.qin[result]) && !p.qin[result] && p.qlen == old(p.qlen) - 1
+//@   ensures minimum: forall it *PQItem :: old(p.qin[it]) ==> result.Priority <= it.Priority
+//@   ensures others_stay: forall it *PQItem :: it != result ==> p.qin[it] == old(p.qin[it])
+
+//@ func (*PriorityQueue).Peek
+//@   props C14
+//@   trusted
+//@   nopanic
+//@   requires p != nil && p.qlen > 0
+//@   ensures result != nil && p.qin[result]
+//@   ensures minimum: forall it *PQItem :: p.qin[it] ==> result.Priority <= it.Priority
+
+//@ func (*PriorityQueue).Update
+//@   props C14
+//@   trusted
+//@   nopanic
+//@   requires p != nil && el != nil && p.qin[el]
+//@   modifies el.Priority, PQItem.index
+//@   ensures el.Priority == priority
+
+//@ func (*PriorityQueue).Remove
+//@   props C14
+//@   trusted
+//@   nopanic
+//@   requires p != nil && el != nil && p.qin[el]
+//@   modifies p.qin[el], p.qlen, PQItem.index
+//@   ensures !p.qin[el] && p.qlen == old(p.qlen) - 1
+
+// ---- TTLMap ----
+
+//@ func NewTTLMap
+//@   props C03 C14
+//@   modifies nothing
+//@   ensures fresh(result) && result != nil && result.OnExpire == nil && result.capacity == max(capacity, 0) && fresh(result.mutex)
+//@   ensures repOK(result) && result.vlen == 0 && (forall k string :: !result.vdom[k])
+//@   ghost_ensures result.vlen == 0 && (forall k string :: !result.vdom[k])
+
+//@ func (*TTLMap).toEpochSeconds
+//@   props C14
+//@   readsclock
+//@   modifies nothing
+//@   ensures ttlSeconds <= 0 ==> result1 != nil
+//@   ensures ttlSeconds > 0 ==> result1 == nil && result0 == (lastclock + ttlSeconds * 1000000000) / 1000000000
+
+//@ func (*TTLMap).get
+//@   props C14
+//@   holds m.mutex
+//@   readsclock
+//@   requires m != nil && repOK(m)
+//@   modifies nothing
+//@   ensures result0 == ite(in(key, m.elements), m.elements[key], nil)
+//@   ensures result0 != nil ==> (result1 <==> result0.heapEl.Priority <= lastclock / 1000000000)
+
 //@ func (*TTLMap).RemoveExpired
 //@   props C09 C14
 //@   holds m.mutex
-//@   modifies external, mapof(m.elements), m.expiryTimes
+//@   readsclock
+//@   requires m != nil && repOK(m) && iterations == 1
+//@   modifies mapof(m.elements), m.expiryTimes.qin, m.expiryTimes.qlen, PQItem.index
+//@   ensures repOK(m) && 0 <= result && result <= 1
+//@   ensures nothing_removed: result == 0 ==> (forall k string :: entrySame(m, k)) && (old(len(m.elements)) == 0 || (forall k string :: in(k, m.elements) ==> m.elements[k].heapEl.Priority > lastclock / 1000000000))
+//@   ensures removed_the_minimum: result == 1 ==> (exists v string :: old(in(v, m.elements)) && !in(v, m.elements) && (forall k string :: old(in(k, m.elements)) ==> old(m.elements[v].heapEl.Priority) <= old(m.elements[k].heapEl.Priority)) && (forall k string :: k != v ==> entrySame(m, k)))
+//@   loop 0 invariant 0 <= i && i <= 1 && removed == i && repOK(m)
+//@   loop 0 invariant i == 0 ==> (forall k string :: entrySame(m, k)) && len(m.elements) == old(len(m.elements))
+//@   loop 0 invariant i == 1 ==> (exists v string :: old(in(v, m.elements)) && !in(v, m.elements) && (forall k string :: old(in(k, m.elements)) ==> old(m.elements[v].heapEl.Priority) <= old(m.elements[k].heapEl.Priority)) && (forall k string :: k != v ==> entrySame(m, k)))
+
 //@ func (*TTLMap).RemoveLastUsed
 //@   props C09 C14
 //@   holds m.mutex
-//@   modifies external, mapof(m.elements), m.expiryTimes
+//@   requires m != nil && repOK(m) && iterations == 1
+//@   modifies mapof(m.elements), m.expiryTimes.qin, m.expiryTimes.qlen, PQItem.index
+//@   ensures repOK(m)
+//@   ensures empty_map: old(len(m.elements)) == 0 ==> (forall k string :: entrySame(m, k))
+//@   ensures removed_the_minimum: old(len(m.elements)) > 0 ==> (exists v string :: old(in(v, m.elements)) && !in(v, m.elements) && (forall k string :: old(in(k, m.elements)) ==> old(m.elements[v].heapEl.Priority) <= old(m.elements[k].heapEl.Priority)) && (forall k string :: k != v ==> entrySame(m, k)))
+//@   loop 0 invariant 0 <= i && i <= 1 && repOK(m)
+//@   loop 0 invariant i == 0 ==> (forall k string :: entrySame(m, k)) && len(m.elements) == old(len(m.elements))
+//@   loop 0 invariant i == 1 ==> old(len(m.elements)) > 0 && (exists v string :: old(in(v, m.elements)) && !in(v, m.elements) && (forall k string :: old(in(k, m.elements)) ==> old(m.elements[v].heapEl.Priority) <= old(m.elements[k].heapEl.Priority)) && (forall k string :: k != v ==> entrySame(m, k)))
 
-//@ pred nowsec() = lastclock / 1000000000
-//@ pred live(m *TTLMap, k string) = m.vdom[k] && m.vexp[k] > lastclock / 1000000000
+//@ func (*TTLMap).freeSpace
+//@   props C14
+//@   holds m.mutex
+//@   readsclock
+//@   requires m != nil && repOK(m) && count == 1
+//@   modifies mapof(m.elements), m.expiryTimes.qin, m.expiryTimes.qlen, PQItem.index
+//@   ensures repOK(m)
+//@   ensures empty_map: old(len(m.elements)) == 0 ==> (forall k string :: entrySame(m, k))
+//@   ensures removed_the_minimum: old(len(m.elements)) > 0 ==> (exists v string :: old(in(v, m.elements)) && !in(v, m.elements) && (forall k string :: old(in(k, m.elements)) ==> old(m.elements[v].heapEl.Priority) <= old(m.elements[k].heapEl.Priority)) && (forall k string :: k != v ==> entrySame(m, k)))
+
+//@ func (*TTLMap).set
+//@   props C14
+//@   holds m.mutex
+//@   readsclock
+//@   requires m != nil && repOK(m)
+//@   modifies mapof(m.elements), m.expiryTimes.qin, m.expiryTimes.qlen, PQItem.index, PQItem.Priority, mapElement.value
+//@   ensures result == nil && repOK(m)
+//@   ensures stored: in(key, m.elements) && m.elements[key].value == value && m.elements[key].heapEl.Priority == expiryTime
+//@   ensures within_capacity: old(in(key, m.elements)) || old(len(m.elements)) < m.capacity ==> (forall k string :: k != key ==> entrySame(m, k))
+//@   ensures evicts_the_minimum: !old(in(key, m.elements)) && old(len(m.elements)) >= m.capacity && old(len(m.elements)) > 0 ==> (exists v string :: v != key && old(in(v, m.elements)) && !in(v, m.elements) && (forall k string :: old(in(k, m.elements)) ==> old(m.elements[v].heapEl.Priority) <= old(m.elements[k].heapEl.Priority)) && (forall k string :: k != key && k != v ==> entrySame(m, k)))
+//@   ensures evicts_nothing_when_empty: !old(in(key, m.elements)) && old(len(m.elements)) == 0 ==> (forall k string :: k != key ==> entrySame(m, k))
+
+//@ func (*TTLMap).lockNGet
+//@   props C09 C14
+//@   readsclock
+//@   requires m != nil && m.OnExpire == nil
+//@   modifies nothing
+//@   ensures mapEl != nil <==> m.vdom[key]
+//@   ensures mapEl != nil ==> mapEl.key == key && tagof(value) == m.vtag[key] && payload(value) == m.vval[key] && (expired <==> m.vexp[key] <= lastclock / 1000000000)
+
+//@ func (*TTLMap).lockNDel
+//@   props C09 C14
+//@   atomic m.mutex
+//@   readsclock
+//@   requires m != nil && m.OnExpire == nil && mapEl != nil
+//@   modifies m.vdom[mapEl.key], m.vlen, mapof(m.elements), m.expiryTimes.qin, m.expiryTimes.qlen, PQItem.index
+//@   ghost_ensures m.vdom[old(mapEl.key)] == in(old(mapEl.key), m.elements) && m.vlen == len(m.elements)
+//@   ensures removed_iff_expired: m.vdom[mapEl.key] == (old(m.vdom[mapEl.key]) && old(m.vexp[mapEl.key]) > lastclock / 1000000000)
+//@   ensures m.vlen == old(m.vlen) - ite(old(m.vdom[mapEl.key]) && !m.vdom[mapEl.key], 1, 0)
+
+//@ func (*TTLMap).Len
+//@   props C09 C14
+//@   requires m != nil
+//@   modifies nothing
+//@   ensures result == m.vlen
 
 //@ func (*TTLMap).Get
 //@   props C03 C13 C14
-//@   trusted
 //@   readsclock
-//@   requires m != nil
-//@   modifies m.vdom[key], m.vlen
+//@   requires m != nil && m.OnExpire == nil
+//@   modifies m.vdom[key], m.vlen, mapof(m.elements), m.expiryTimes.qin, m.expiryTimes.qlen, PQItem.index
 //@   ensures hit_iff_live: result1 <==> (old(m.vdom[key]) && old(m.vexp[key]) > lastclock / 1000000000)
 //@   ensures hit_value: result1 ==> tagof(result0) == m.vtag[key] && payload(result0) == m.vval[key] && m.vdom[key] && m.vlen == old(m.vlen)
 //@   ensures miss_forgets_only_this_key: !result1 ==> !m.vdom[key] && m.vlen == old(m.vlen) - ite(old(m.vdom[key]), 1, 0)
 
 //@ func (*TTLMap).Set
 //@   props C03 C13 C14
-//@   trusted
+//@   atomic m.mutex
 //@   readsclock
 //@   requires m != nil
-//@   modifies TTLMap.vdom, TTLMap.vtag, TTLMap.vval, TTLMap.vexp, m.vlen
-//@   ensures bad_ttl: ttlSeconds <= 0 ==> result != nil && (forall k string :: m.vdom[k] == old(m.vdom[k]) && m.vtag[k] == old(m.vtag[k]) && m.vval[k] == old(m.vval[k]) && m.vexp[k] == old(m.vexp[k]))
+//@   modifies TTLMap.vdom, TTLMap.vtag, TTLMap.vval, TTLMap.vexp, m.vlen, mapof(m.elements), m.expiryTimes.qin, m.expiryTimes.qlen, PQItem.index, PQItem.Priority, mapElement.value
+//@   ghost_ensures viewIsAbstraction(m)
+//@   ghost_ensures forall o *TTLMap, k string :: o != m ==> o.vdom[k] == old(o.vdom[k]) && o.vtag[k] == old(o.vtag[k]) && o.vval[k] == old(o.vval[k]) && o.vexp[k] == old(o.vexp[k])
+//@   ensures bad_ttl: ttlSeconds <= 0 ==> result != nil && (forall k string :: viewSame(m, k))
 //@   ensures stored: ttlSeconds > 0 ==> result == nil && m.vdom[key] && m.vtag[key] == tagof(value) && m.vval[key] == payload(value) && m.vexp[key] == (lastclock + ttlSeconds * 1000000000) / 1000000000
-//@   ensures no_eviction_within_capacity: ttlSeconds > 0 && (old(m.vdom[key]) || old(m.vlen) < m.capacity) ==> (forall k string :: k != key ==> m.vdom[k] == old(m.vdom[k]) && m.vtag[k] == old(m.vtag[k]) && m.vval[k] == old(m.vval[k]) && m.vexp[k] == old(m.vexp[k]))
-//@   ensures eviction_takes_nearest_expiry: ttlSeconds > 0 && !old(m.vdom[key]) && old(m.vlen) >= m.capacity ==> (exists v string :: v != key && (old(m.vdom[v]) || old(m.vlen) == 0) && !m.vdom[v] && (forall k string :: old(m.vdom[k]) ==> old(m.vexp[v]) <= old(m.vexp[k])) && (forall k string :: k != key && k != v ==> m.vdom[k] == old(m.vdom[k]) && m.vtag[k] == old(m.vtag[k]) && m.vval[k] == old(m.vval[k]) && m.vexp[k] == old(m.vexp[k])))
+//@   ensures no_eviction_within_capacity: ttlSeconds > 0 && (old(m.vdom[key]) || old(m.vlen) < m.capacity) ==> (forall k string :: k != key ==> viewSame(m, k))
+//@   ensures eviction_takes_nearest_expiry: ttlSeconds > 0 && !old(m.vdom[key]) && old(m.vlen) >= m.capacity ==> (exists v string :: v != key && (old(m.vdom[v]) || old(m.vlen) == 0) && !m.vdom[v] && (forall k string :: old(m.vdom[k]) ==> old(m.vexp[v]) <= old(m.vexp[k])) && (forall k string :: k != key && k != v ==> viewSame(m, k)))
 //@   ensures other_maps_untouched: forall o *TTLMap, k string :: o != m ==> o.vdom[k] == old(o.vdom[k]) && o.vtag[k] == old(o.vtag[k]) && o.vval[k] == old(o.vval[k]) && o.vexp[k] == old(o.vexp[k])
